@@ -207,6 +207,65 @@ where
     }
 }
 
+#[cfg(feature = "verif_hooks")]
+impl<W> Stream<W>
+where
+    W: Write,
+{
+    /// Verification hook: feed every live field of the stream (not the sink)
+    /// into `h`. Bytes of `tmp` at or beyond its position are dead and left
+    /// out.
+    #[doc(hidden)]
+    pub fn verif_hash_state<H: std::hash::Hasher>(&self, h: &mut H) {
+        use std::hash::Hash;
+        let pos = self.tmp.position() as usize;
+        h.write_usize(pos);
+        h.write(&self.tmp.get_ref()[..pos]);
+        match &self.state {
+            None => h.write_u8(0),
+            Some(State::Header(_)) => h.write_u8(1),
+            Some(State::Data(state)) => {
+                h.write_u8(2);
+                h.write_u32(state.range);
+                h.write_u32(state.code);
+                state.decoder.verif_hash_state(h);
+                state.output.verif_hash_state(h);
+            }
+        }
+        format!("{:?}", self.options).hash(h);
+    }
+
+    /// Verification hook: like [`Self::verif_hash_state`] but including the
+    /// dead bytes of the staging buffer (used to audit the dead-byte argument).
+    #[doc(hidden)]
+    pub fn verif_hash_state_with_dead<H: std::hash::Hasher>(&self, h: &mut H) {
+        self.verif_hash_state(h);
+        h.write(&self.tmp.get_ref()[..]);
+        if let Some(State::Data(state)) = &self.state {
+            state.decoder.verif_hash_dead(h);
+        }
+    }
+
+    /// Verification hook: 0 = failed, 1 = header pending, 2 = running.
+    #[doc(hidden)]
+    pub fn verif_phase(&self) -> u8 {
+        match &self.state {
+            None => 0,
+            Some(State::Header(_)) => 1,
+            Some(State::Data(_)) => 2,
+        }
+    }
+
+    /// Verification hook: bytes of history currently buffered by the window.
+    #[doc(hidden)]
+    pub fn verif_window_buf_len(&self) -> usize {
+        match &self.state {
+            Some(State::Data(state)) => state.output.verif_buf_len(),
+            _ => 0,
+        }
+    }
+}
+
 impl<W> Debug for Stream<W>
 where
     W: Write + Debug,
